@@ -421,6 +421,11 @@ func isErr(r Reply) bool { _, ok := r.(Err); return ok }
 
 // handleLocked processes one request: logging, MULTI/EXEC, injection, cut.
 func (s *Server) handleLocked(c *conn, all [][]byte) (Reply, action) {
+	if s.cluster != nil {
+		// cluster role: every request of every node runs under the one cluster-wide lock
+		s.cluster.enter(s)
+		defer s.cluster.leave(s, c)
+	}
 	s.seq++
 	cmd := strings.ToUpper(string(all[0]))
 	args := all[1:]
@@ -525,6 +530,12 @@ func (s *Server) dispatchLocked(c *conn, req *Req) (Reply, action) {
 
 	if !known {
 		if s.opt.Permissive {
+			if s.cluster != nil { // routed by its first argument like any single-key command
+				if r := s.cluster.check(s, c, cmd, args); r != nil {
+					req.Kind = ReqRejected
+					return r, actNone
+				}
+			}
 			s.logApp(c, cmd, args, req.Seq, req.Seq, 0, 0, OK, true, req.AtMs)
 			return OK, actNone
 		}
